@@ -97,9 +97,9 @@ func FindNaluTypes(sample []byte) []NaluType {
 	if length < 4 {
 		return naluList
 	}
-	var pos uint32 = 0
-	for pos < uint32(length-4) {
-		naluLength := binary.BigEndian.Uint32(sample[pos : pos+4])
+	var pos uint64 = 0
+	for pos+4 < uint64(length) {
+		naluLength := uint64(binary.BigEndian.Uint32(sample[pos : pos+4]))
 		pos += 4
 		naluType := GetNaluType(sample[pos])
 		naluList = append(naluList, naluType)
@@ -115,9 +115,9 @@ func FindNaluTypesUpToFirstVideoNalu(sample []byte) []NaluType {
 	if length < 4 {
 		return naluList
 	}
-	var pos uint32 = 0
-	for pos < uint32(length-4) {
-		naluLength := binary.BigEndian.Uint32(sample[pos : pos+4])
+	var pos uint64 = 0
+	for pos+4 < uint64(length) {
+		naluLength := uint64(binary.BigEndian.Uint32(sample[pos : pos+4]))
 		pos += 4
 		naluType := GetNaluType(sample[pos])
 		naluList = append(naluList, naluType)
@@ -136,13 +136,13 @@ func IsVideoNaluType(naluType NaluType) bool {
 
 // ContainsNaluType - is specific NaluType present in sample
 func ContainsNaluType(sample []byte, specificNaluType NaluType) bool {
-	var pos uint32 = 0
+	var pos uint64 = 0
 	length := len(sample)
 	if length < 4 {
 		return false
 	}
-	for pos < uint32(length-4) {
-		naluLength := binary.BigEndian.Uint32(sample[pos : pos+4])
+	for pos+4 < uint64(length) {
+		naluLength := uint64(binary.BigEndian.Uint32(sample[pos : pos+4]))
 		pos += 4
 		naluType := GetNaluType(sample[pos])
 		if naluType == specificNaluType {
@@ -195,12 +195,15 @@ func HasParameterSets(b []byte) bool {
 
 // GetParameterSets - get (multiple) VPS,  SPS, and PPS from a sample
 func GetParameterSets(sample []byte) (vps, sps, pps [][]byte) {
-	sampleLength := uint32(len(sample))
-	var pos uint32 = 0
+	sampleLength := uint64(len(sample))
+	var pos uint64 = 0
 naluLoop:
-	for pos < sampleLength {
-		naluLength := binary.BigEndian.Uint32(sample[pos : pos+4])
+	for pos+4 < sampleLength {
+		naluLength := uint64(binary.BigEndian.Uint32(sample[pos : pos+4]))
 		pos += 4
+		if pos+naluLength > sampleLength {
+			break // NAL unit extends beyond the sample
+		}
 		switch naluType := GetNaluType(sample[pos]); {
 		case naluType == NALU_VPS:
 			vps = append(vps, sample[pos:pos+naluLength])
